@@ -1,6 +1,6 @@
 """Shared constants of the F-model family (see harness/fmodel.h)."""
 OB, FO3, SK, SSE, FO4, FO76 = range(6)
 VERS = {"OB": OB, "FO3": FO3, "SK": SK, "SSE": SSE, "FO4": FO4, "FO76": FO76}
-SKIN, COLL, EXTRA, SHAPE2, CTRL, LOOSE, SYMPOS, CHILDNODE, LOOSECHAIN, SHAPEEXTRA, ROOT1, SHAREDCOLL, SHADERCTRL, BONETREE, LEGACYSHAPE, EXPORTINFO, TEXPATH, SRCTEX = 1, 2, 4, 8, 16, 32, 64, 128, 256, 512, 1024, 2048, 4096, 8192, 16384, 32768, 65536, 131072
+SKIN, COLL, EXTRA, SHAPE2, CTRL, LOOSE, SYMPOS, CHILDNODE, LOOSECHAIN, SHAPEEXTRA, ROOT1, SHAREDCOLL, SHADERCTRL, BONETREE, LEGACYSHAPE, EXPORTINFO, TEXPATH, SRCTEX, STRIPS, BONETYPE, DATALESS = 1, 2, 4, 8, 16, 32, 64, 128, 256, 512, 1024, 2048, 4096, 8192, 16384, 32768, 65536, 131072, 262144, 524288, 1048576
 BUILTIN = ("memory", "div0", "unreachable", "recursion", "hang", "huge-allocation", "exception")
 MAXREFS = 40
